@@ -262,7 +262,8 @@ def run_check(pid, tier, seed, jobs):
         by_sig.setdefault(v['sig'], []).append(v)
     new_sigs = []
     known_seen = []
-    outdir = os.path.join(HERE, 'out')
+    no_ev = bool(os.environ.get('VERIF_NO_EVIDENCE'))   # development runs against scratch copies (tools/mut.py)
+    outdir = os.path.join(HERE, 'out', 'scratch') if no_ev else os.path.join(HERE, 'out')
     for sig, vs in sorted(by_sig.items()):
         if sig in open_sigs:
             known_seen.append(sig)
@@ -307,9 +308,10 @@ def run_check(pid, tier, seed, jobs):
         wall_s=round(wall, 3),
         violations=len(new_sigs),
     )
-    os.makedirs(os.path.join(HERE, 'evidence'), exist_ok=True)
-    with open(os.path.join(HERE, 'evidence', f'{pid}.json'), 'w') as f:
-        json.dump(evidence, f, indent=1, default=repr)
+    if not no_ev:
+        os.makedirs(os.path.join(HERE, 'evidence'), exist_ok=True)
+        with open(os.path.join(HERE, 'evidence', f'{pid}.json'), 'w') as f:
+            json.dump(evidence, f, indent=1, default=repr)
 
     print(f'{pid} {tier} seed={seed}: {evaluations} cases, {coverage["distinct_nontrivial"]} distinct non-trivial, '
           f'{len(units)} units, {wall:.1f}s -> {verdict}')
